@@ -12,7 +12,7 @@ Not decided: behaviour under all permutations / missing / extra patterns of the 
 """
 import re
 from ..mir import AnchorLost
-from ..util import norm_cmps, df_of, fn_short, in_set, backward_slice, operand_path, path_last
+from ..util import cmp_truth, norm_cmps, df_of, fn_short, in_set, backward_slice, operand_path, path_last
 from .c09 import rpo_index
 
 S = "alloc::string::String"
@@ -33,6 +33,7 @@ FAMILY = {
     "UdtStrict": ("udt", "name", [("a", "a", "i32"), ("ignored", None, S), ("b", "b", S), ("c", "c", O64)], "sd"),
     "UdtOrdered": ("udt", "order", [("a", "a", "i32"), ("b", "bb", S)], "sd"),
     "UdtOrderedNoNames": ("udt", "order-nonames", [("a", "a", "i32"), ("b", "b", S)], "sd"),
+    "UdtAllowMissingFirst": ("udt", "name", [("a", "a", "i32"), ("b", "b", S), ("c", "c", O64), ("d", "d", "i64")], "sd"),
     "UdtOrderedDefaults": ("udt", "order", [("a", "a", "i32"), ("b", "b", "i64"), ("c", "c", "core::option::Option<i32>")], "sd"),
 }
 
@@ -333,6 +334,74 @@ def r4(ctx, facts):
         r.instance("%s:fields-covered" % name, n >= len(names), "%d value uses found for %d fields" % (n, len(names)), b.span, nontrivial=False)
 
 
+# fields carrying #[scylla(allow_missing)] in the family (mirrors derive_family/src/lib.rs)
+ALLOW_MISSING = {"UdtStrict": {"c"}, "UdtAllowMissingFirst": {"a", "c"}, "UdtOrderedDefaults": {"b"}, "RowDefaults": set()}
+
+
+def r5(ctx, facts):
+    r = ctx.rule("R5", "by-name UDT serialization refuses a UDT that lacks a required field, for exactly the required fields", floor=12)
+    for name, (kind, flavor, fields, der) in FAMILY.items():
+        if kind != "udt" or flavor != "name" or "s" not in der:
+            continue
+        b = find_body(facts, r"^<derive_family::%s as scylla_cql_core::serialize::value::SerializeValue>::serialize$" % name)
+        df = df_of(b, facts)
+        required = {cql: f for f, cql, ty in fields if cql is not None and f not in ALLOW_MISSING.get(name, set())}
+        optional = {cql for f, cql, ty in fields if cql is not None and f in ALLOW_MISSING.get(name, set())}
+        flag_of = {}
+        for l in range(len(b.locals)):
+            nm = (b.local_name(l) or "").lstrip("_")
+            if nm.startswith("visited_flag_"):
+                flag_of[l] = nm[len("visited_flag_"):]
+        sites = {}
+        for bb in sorted(b.live_blocks):
+            for j, st in enumerate(b.stmts(bb)):
+                if not (st[0] == "A" and st[2][0] == "agg" and st[2][1][0] == "adt" and st[2][1][2] == "ValueMissingForUdtField"):
+                    continue
+                if bb not in df.state_in:
+                    continue   # generated for every field, but guarded by `&& !true` for allow_missing ones: not feasible
+                # the reported name: to_string() of a literal
+                lit = None
+                locs, calls, _ = backward_slice(b, st[2][2][0])
+                for c in calls:
+                    for a in c.args:
+                        lit = lit or resolve_literal(facts, b, a)
+                state = df.state_before_stmt(bb, j) or {}
+                unvisited = sorted(flag_of[k[1][0]] for k, v in state.items() if k[0] == "val" and not k[1][1] and k[1][0] in flag_of and in_set(v, {0}))
+                sites.setdefault(lit, []).append((unvisited, b.stmt_span(st)))
+        for cql, f in sorted(required.items()):
+            ss = sites.get(cql, [])
+            r.instance("%s:required-field-checked:%s" % (name, cql), bool(ss) and all(f in unv for unv, _ in ss),
+                       "a UDT lacking the required field %r must be refused with ValueMissingForUdtField{%r}, reported where the visited flag of `%s` is false; found %s"
+                       % (cql, cql, f, [(u, str(sp)) for u, sp in ss] or "no such error site"), ss[0][1] if ss else b.span)
+        for cql in sorted(optional):
+            r.instance("%s:allow_missing-field-not-required:%s" % (name, cql), cql not in sites, "%r is allow_missing: its absence must not be an error" % cql, b.span, nontrivial=False)
+        extra = sorted(str(k) for k in sites if k not in required and k not in optional)
+        r.instance("%s:no-stray-missing-field-error" % name, not extra, "ValueMissingForUdtField is reported for %s, which is no field of the struct" % extra, b.span, nontrivial=False)
+
+
+def r6(ctx, facts):
+    r = ctx.rule("R6", "by-name UDT serialization: the nulls owed for skipped UDT fields are flushed exactly once (counter back to 0 before a field is written)", floor=6)
+    for name, (kind, flavor, fields, der) in FAMILY.items():
+        if kind != "udt" or flavor != "name" or "s" not in der:
+            continue
+        b = find_body(facts, r"^<derive_family::%s as scylla_cql_core::serialize::value::SerializeValue>::serialize$" % name)
+        df = df_of(b, facts)
+        sk = [l for l in range(len(b.locals)) if (b.local_name(l) or "").lstrip("_") == "skipped_fields"]
+        if not sk:
+            continue   # forbid_excess_udt_fields: nothing is ever skipped
+        L = ("val", (sk[0], ()))
+        n = 0
+        for bb, c in b.calls():
+            if bb not in b.live_blocks or bb not in df.state_in or c.decl != "scylla_cql_core::serialize::value::SerializeValue::serialize":
+                continue
+            n += 1
+            st = df.state_in.get(bb) or {}
+            zero = cmp_truth(st, "Gt", L, ("const", 0)) == 0 or cmp_truth(st, "Eq", L, ("const", 0)) == 1 or in_set(st.get(L), {0})
+            r.instance("%s:no-stale-skipped-count#%d" % (name, n), zero,
+                       "a field is serialized while `skipped_fields` may still be non-zero: the nulls written for earlier unknown UDT fields would be written again before the next field (every later field shifts)", c.span)
+        r.instance("%s:field-writes-found" % name, n >= len([f for f in fields if f[1] is not None]), "%d field serializations found" % n, b.span, nontrivial=False)
+
+
 def check(ctx):
     facts = ctx.facts("family")
     sers = {}
@@ -340,7 +409,7 @@ def check(ctx):
         sers = r1(ctx, facts)
     except AnchorLost as ex:
         ctx.rule("R1x", "anchors").fail("anchor-lost", str(ex))
-    for fn in ((lambda c, f: r2(c, f, sers)), r3, r4):
+    for fn in ((lambda c, f: r2(c, f, sers)), r3, r4, r5, r6):
         try:
             fn(ctx, facts)
         except AnchorLost as ex:
